@@ -7,6 +7,7 @@ from the property text predicts V = B - S (lines below an inserted line shifted)
 """
 from __future__ import annotations
 
+import json
 import re
 from collections import Counter
 
@@ -229,8 +230,91 @@ def run(ctx):
     matrix = Counter()
     run_flavour(ctx, rng, project(), "", matrix)
     run_flavour(ctx, rng, exotic(project()), ":exotic-line-separators", matrix)
+    run_ignore_forms(ctx, rng)
     ctx.obs["matrix_cells_ok"] = sum(n for (t, s), n in matrix.items() if s == "ok")
     ctx.obs["matrix_cells_fail"] = sum(n for (t, s), n in matrix.items() if s == "fail")
+
+
+# The pattern forms of docs/configuration.md "Ignore Patterns (All Linters)" (syntax table + Examples 1-4), each written for a file two directories deep.
+# {stem} / {ext} are those of the target file backend/app/famous_tracks.<ext>; the last two forms target backend/tests/test_models.<ext> (Example 3: `tests/**`
+# matches backend/tests/test_bar.py; Example 2: `**/test_*.py`).
+IGNORE_FORMS = [("exact", "backend/app/famous_tracks{ext}", "famous"), ("recursive-name", "**/famous_tracks{ext}", "famous"), ("dir-tree", "backend/app/**", "famous"),
+                ("top-dir-tree", "backend/**", "backend"), ("substring", "famous_tracks", "famous"), ("recursive-wildcard-name", "**/famous_*{ext}", "famous"),
+                ("any-dir-tree", "**/app/**", "famous"), ("wildcard-name", "famous_*{ext}", "famous"),
+                ("nested-dir-tree", "tests/**", "tests"), ("recursive-test-name", "**/test_*{ext}", "tests")]
+IGNORE_LINTERS = sorted(LINTER_IGNORE_DOCUMENTED | {"perf"})  # (docs/performance-linter.md "Ignore Patterns" / "Config-Level Ignore")
+
+
+def ignore_forms_job(arg):
+    files, cmd, witness, sec, pats = arg
+    out = {}
+    for label, use in (("base", False), ("with", True)):
+        fs = dict(files)
+        # (the base run carries a list that matches nothing: a configured list replaces a linter's default list, e.g. tests/ for the Rust linters)
+        cfg = json.loads(fs[".thailint.json"])
+        cfg.setdefault(sec, {})["ignore"] = pats if use else ["nomatch_zzz/"]
+        fs[".thailint.json"] = json.dumps(cfg)
+        d = runner.new_dir("g")
+        runner.write_tree(d, fs)
+        res = {}
+        for c in (cmd, witness):
+            r = runner.cli([c, "--format", "json", "."], d)
+            vs = r.violations()
+            res[c] = None if vs is None or r.exit not in (0, 1) else norm(vs)
+        out[label] = res
+    return out
+
+
+def run_ignore_forms(ctx, rng):
+    """Linter-level ignore patterns in every documented form, for every linter that documents the option."""
+    t = triggers.files("k")
+    body = {".py": t["src/appk.py"], ".ts": t["src/webk.ts"], ".rs": t["src/corek.rs"]}
+    files = {}
+    for ext, text in body.items():
+        for place in ("backend/app/famous_tracks", "backend/tests/test_models", "other/place/plain_file", "other/place/second_file"):
+            files[place + ext] = text
+    files[".thailint.json"] = json.dumps({"dry": {"enabled": True, "min_duplicate_lines": 3}})
+    jobs, meta = [], []
+    for c in IGNORE_LINTERS:
+        sec = SECTION.get(c, c)
+        w = "magic-numbers" if c != "magic-numbers" else "nesting"
+        forms = IGNORE_FORMS if not ctx.quick else [IGNORE_FORMS[0]] + rng.sample(IGNORE_FORMS[1:], 5)
+        for (form, pat, hit) in forms:
+            pats = [pat.format(ext=e) for e in body] if "{ext}" in pat else [pat]
+            jobs.append((files, c, w, sec, pats))
+            meta.append((c, form, pats, hit))
+    for (c, form, pats, hit), o in zip(meta, runner.pmap(ignore_forms_job, jobs, timeout=600)):
+        if not o.get("ok") or any(o["value"][k][x] is None for k in ("base", "with") for x in o["value"][k]):
+            ctx.inconclusive_if(True, "ignore-form job %s/%s failed: %s" % (c, form, str(o)[:300]))
+            continue
+        ctx.evaluations += 2
+        w = "magic-numbers" if c != "magic-numbers" else "nesting"
+        v = o["value"]
+        inside = {"famous": lambda f: "famous_tracks" in f, "backend": lambda f: f.startswith("backend/"), "tests": lambda f: f.startswith("backend/tests/")}[hit]
+        base_c, got_c = v["base"][c], v["with"][c]
+        exp_c = [x for x in base_c if not inside(x[1])]
+        ctx.count("ignore_form_cells")
+        rep = {"argv": [c, "--format", "json", "."], "section": SECTION.get(c, c), "ignore": pats}
+        shown = dict(files, **{".thailint.json": json.dumps(dict(json.loads(files[".thailint.json"]), **{SECTION.get(c, c): {"ignore": pats}}))})
+        if any(inside(x[1]) for x in base_c):
+            ctx.nontrivial(["linter-ignore-form", c, form])
+        else:
+            ctx.count("ignore_form_cells_without_target_finding")
+            continue
+        if c in ("dry", "stringly-typed"):
+            # (what the OTHER occurrences say about the ignored file is not specified: judged on the files only)
+            exp_files, got_files = sorted({x[1] for x in exp_c}), sorted({x[1] for x in got_c})
+            bad = [f for f in got_files if inside(f)] or ([f for f in exp_files if f not in got_files] and ["lost:" + f for f in exp_files if f not in got_files])
+            if bad:
+                ctx.discrepancy("linter-ignore-form:%s:%s" % (form, c), "`%s` with %s.ignore = %r: %r" % (c, SECTION.get(c, c), pats, bad[:4]), rep, shown)
+            continue
+        if got_c != exp_c:
+            still = [x for x in got_c if inside(x[1])]
+            key = "linter-ignore-form:%s:%s" % (form, c) if still else "linter-ignore-form-collateral:%s:%s" % (form, c)
+            ctx.discrepancy(key, "`%s` with %s.ignore = %r: %d finding(s) of the matching files remain (e.g. %r); %d other finding(s) changed" % (
+                c, SECTION.get(c, c), pats, len(still), still[:1], len([x for x in got_c if x not in exp_c and not inside(x[1])]) + len([x for x in exp_c if x not in got_c])), rep, shown)
+        if v["with"][w] != v["base"][w]:
+            ctx.discrepancy("linter-ignore-form-witness:%s" % c, "%s.ignore = %r changed the findings of `%s`" % (SECTION.get(c, c), pats, w), rep, shown)
 
 
 EXOTIC = "\x0c\x0b\x1c\x1d\x1e\x85\u2028"  # what str.splitlines() breaks on and the parsers (ast, tree-sitter) do not
